@@ -127,9 +127,18 @@ class Run:
 
 def run_property(prop_id, body, trace):
     """Wrap a property's execute body: maps Violation / Discard to verdicts."""
+    from . import simclock
+
+    simclock.install()
+    simclock.set_now(simclock.DEFAULT_NOW)
+    reads0 = simclock.reads
     run = Run(trace)
     try:
-        body(run)
+        try:
+            body(run)
+        finally:
+            if simclock.reads != reads0:
+                run.stats["reach:simulated_clock_reads_by_library"] += simclock.reads - reads0
     except Violation as v:
         sig = f"{prop_id}/{v.oracle}/{v.subject}/{v.site}"
         return run.finish("violation", sig, v.detail)
